@@ -1,6 +1,6 @@
 (* C04 — handles are independent and memory-safe across threads, under every schedule.   (partial: see below) *)
 From Coq Require Import Lia Arith List Bool String.
-From LSConc Require Import Clock Mach Inv Top Values.
+From LSConc Require Import Clock Mach Inv Top Values Contents.
 From LS Require Import Base Cmd Impl Proto ProtoOps Compose Programs Sched Legacy.
 From LSGen Require Import GenSrc.
 Import ListNotations.
@@ -269,6 +269,33 @@ Example C04_thread_view_example :
   /\ WF.abs (fst (Exec.execs (Exec.world0x [] (fun _ _ => false) ThreadView.flicker) ThreadView.view_ops)) = fst (Main.spec_execs [] [] ThreadView.view_ops).
 Proof. vm_compute. split; reflexivity. Qed.
 
+(* (11) contents.  The machine carries no bytes; give every write step of a schedule the value it writes.  While a thread
+   can reach the buffer (holds a reference, reads through a loan, or must free it) and itself moves too, every write,
+   reallocation or release in the schedule is its own — so what the buffer holds is what that thread's own writes made of
+   it, at every point on the way, for every schedule of the others. *)
+Theorem C04_writes_while_held_are_own : forall t sched s s',
+  Inv s -> Mach.run s sched = Mach.Ok s' -> held_through s t sched ->
+  Forall (fun ua => (snd ua = AWrite \/ snd ua = AFree) -> fst ua = t) sched.
+Proof. exact writes_while_held_are_own. Qed.
+Theorem C04_contents_thread_local : forall (D : Type) t (l1 l2 : list (dstep D)) s s' (d : D),
+  Inv s -> Mach.run s (plain D (l1 ++ l2)) = Mach.Ok s' -> held_through s t (plain D (l1 ++ l2)) ->
+  contents D d l1 = own_contents D t d l1.
+Proof. exact contents_thread_local_prefix. Qed.
+(* ... and in every configuration a well-typed program reaches, an event that writes, moves, re-initialises or
+   reallocates the shared buffer finds no other thread able to reach it *)
+Theorem C04_typed_write_is_sole : forall b0 kof bof cf0 cf t s' c' g',
+  WT b0 kof bof cf0 -> csteps b0 cf0 cf ->
+  estep b0 t (ms cf) (cur (gettc b0 cf t)) (gh (gettc b0 cf t)) s' c' g' -> writes_b0 b0 (cur (gettc b0 cf t)) ->
+  forall u, u <> t -> ~ Contents.holds (ms cf) u.
+Proof. exact typed_write_is_sole. Qed.
+(* the premises are met (write 7, share, the other thread reads and drops, write 9: thread 0 holds throughout), and a
+   write by a thread that merely shares is not a step of the machine *)
+Example C04_contents_example :
+  (Mach.is_ok (Mach.run (Mach.init 1) (plain nat Contents.ex_sched)) = true /\ held_through (Mach.init 1) 0 (plain nat Contents.ex_sched)
+  /\ contents nat 0 Contents.ex_sched = 9
+  /\ Mach.run (Mach.init 1) (plain nat [ (0, AClone, 0); (0, ASpawn 1 1, 0); (1, AProbe 0, 0); (1, AWrite, 5) ]) = Mach.Stuck)%nat.
+Proof. split; [exact Contents.ex_sched_runs|]. split; [exact Contents.ex_sched_held|]. split; [vm_compute; reflexivity|exact Contents.ex_foreign_write_stuck]. Qed.
+
 Print Assumptions C04_atomic_sites.
 Print Assumptions C04_protocol_safe_all_schedules.
 Print Assumptions C04_invariant.
@@ -303,3 +330,7 @@ Print Assumptions C04_scoped_handles_safe.
 Print Assumptions C04_scoped_handles_released.
 Print Assumptions C04_scoped_execution_example.
 Print Assumptions C04_every_value_stream_is_an_oracle.
+Print Assumptions C04_writes_while_held_are_own.
+Print Assumptions C04_contents_thread_local.
+Print Assumptions C04_typed_write_is_sole.
+Print Assumptions C04_contents_example.
